@@ -132,6 +132,21 @@ impl DiscoveredTopicData {
     }
 }
 
+#[cfg(feature = "verif_hooks")]
+#[doc(hidden)]
+impl DiscoveredTopicData {
+    /// Verification hook: construct a value from all of its fields.
+    pub fn verif_new(topic_builtin_topic_data: TopicBuiltinTopicData) -> Self {
+        Self {
+            topic_builtin_topic_data,
+        }
+    }
+    /// Verification hook: field access.
+    pub fn verif_topic_builtin_topic_data(&self) -> &TopicBuiltinTopicData {
+        &self.topic_builtin_topic_data
+    }
+}
+
 #[cfg(test)]
 mod tests {
     use super::*;
